@@ -253,6 +253,30 @@ func prop(c Case) error {
 		if err != nil || text != first {
 			return fmt.Errorf("wkt.Marshal with the same option slice a second time: %q, %v; the first time %q", clip(text), err, clip(first))
 		}
+		// the digit limit is the encoder's current one, however it got there: given to
+		// NewEncoder, applied to an encoder that exists already (an EncodeOption is a
+		// function of the encoder), applied over another limit, applied to the zero value
+		opt := wkt.EncodeOptionWithMaxDecimalDigits(c.D)
+		other := -1
+		if (c.D+len(xs))%2 == 0 {
+			other = (c.D + 7) % 19
+		}
+		e1 := wkt.NewEncoder(wopts...)
+		e2 := wkt.NewEncoder()
+		opt(e2)
+		e3 := wkt.NewEncoder(wkt.EncodeOptionWithMaxDecimalDigits(other))
+		if _, err := e3.Encode(t); err != nil {
+			return fmt.Errorf("Encode with limit %d: %v", other, err)
+		}
+		opt(e3)
+		var e4 wkt.Encoder
+		opt(&e4)
+		for i, e := range []*wkt.Encoder{e1, e2, e3, &e4} {
+			how := []string{"NewEncoder(option)", "NewEncoder() with the option applied afterwards", fmt.Sprintf("an encoder that had the limit %d and encoded with it, with the option applied afterwards", other), "the zero Encoder with the option applied"}[i]
+			if got, err := e.Encode(t); err != nil || got != text {
+				return fmt.Errorf("%s, limit %d: %q, %v; wkt.Marshal with the option gives %q", how, c.D, clip(got), err, clip(text))
+			}
+		}
 		toks, err := refwkt.Tokens(text)
 		if err != nil {
 			return fmt.Errorf("output is not tokenisable WKT: %v\n%s", err, clip(text))
